@@ -68,11 +68,12 @@ func TestVerif_C13_Modes(t *testing.T) {
 			"requests on new streams and on streams opened earlier; at every quiescent point the behaviour must equal f(option, last reachability event): in client mode no handler is registered, every listed inbound stream has been reset, a request on any " +
 			"held stream gets no response bytes; in server mode requests on new and old streams are answered; non-trivial = at least one mode switch with a held stream",
 		Gen: func(t *rapid.T) modeSc {
-			sc := modeSc{Mode: rapid.IntRange(0, 3).Draw(t, "mode")}
+			// (the two automatic modes are the ones that switch: drawn more often than the fixed ones)
+			sc := modeSc{Mode: rapid.SampledFrom([]int{int(ModeAuto), int(ModeAuto), int(ModeAutoServer), int(ModeAutoServer), int(ModeClient), int(ModeServer)}).Draw(t, "mode")}
 			sc.Events = rapid.SliceOfN(rapid.Custom(func(t *rapid.T) modeEv {
 				switch rapid.IntRange(0, 6).Draw(t, "kind") {
 				case 0, 1, 2:
-					return modeEv{Ev: "reach", Reach: rapid.IntRange(0, 2).Draw(t, "reach")}
+					return modeEv{Ev: "reach", Reach: rapid.SampledFrom([]int{0, 1, 2, 1, 2}).Draw(t, "reach")}
 				case 3:
 					return modeEv{Ev: "open", Reg: rapid.Bool().Draw(t, "reg")}
 				case 4:
